@@ -923,6 +923,8 @@ struct Gen<'a> {
     generics: Vec<(String, u8)>,
     /// allow constructs whose lowering is a listed known finding
     budget: i32,
+    /// plain functions generated so far: (name, parameter types, result type)
+    fns: Vec<(String, Vec<Ty>, Option<Ty>)>,
 }
 
 impl<'a> Gen<'a> {
@@ -1113,6 +1115,34 @@ impl<'a> Gen<'a> {
                 return format!("{}{} = {}\n", p, v.name, self.expr(v.ty, 2, sc));
             }
         }
+        if r >= 25 && r < 28 {
+            // array element read / write (IndexAssign is a statement without result temporary)
+            self.st.hit("index-assign");
+            let a = self.name("arr");
+            let e1 = self.expr(Ty::Int, 1, sc);
+            let e2 = self.expr(Ty::Int, 1, sc);
+            return format!("{}let mut {} = Array[{}, 2, 3]\n{}{}[0] = {}\n{}print({}[1])\n", p, a, e1, p, a, e2, p, a);
+        }
+        if r >= 28 && r < 30 && !self.fns.is_empty() {
+            // call of an earlier plain function, as a statement (CallVoid when it returns nothing)
+            let (f, ps, rt) = self.rng.pick(&self.fns).clone();
+            self.st.hit(if rt.is_none() { "call-void-fn-stmt" } else { "call-fn-stmt" });
+            let args: Vec<String> = ps.iter().map(|t| self.expr(*t, 1, sc)).collect();
+            return format!("{}{}({})\n", p, f, args.join(", "));
+        }
+        if r == 30 {
+            // call through a function value whose result is not used
+            self.st.hit("call-through-value-stmt");
+            let q = self.name("q");
+            return format!("{}(fn({}: int) -> void {{ print({}) }})({})\n", p, q, q, self.expr(Ty::Int, 1, sc));
+        }
+        if r == 31 {
+            self.st.hit("cast");
+            let v = self.name("v");
+            let e = self.expr(Ty::Int, 1, sc);
+            sc.push(Var { name: v.clone(), ty: Ty::Float, mutable: false });
+            return format!("{}let {} = ({} as float)\n", p, v, e);
+        }
         let g7: Vec<String> = self.generics.iter().filter(|(_, k)| *k == 7).map(|(g, _)| g.clone()).collect();
         if r >= 22 && r < 25 && !g7.is_empty() {
             self.st.hit("generic-call-compound-result");
@@ -1136,6 +1166,11 @@ impl<'a> Gen<'a> {
                 let c = self.expr(Ty::Bool, 1, sc);
                 let k = if self.rng.chance(1, 2) { "break" } else { "continue" };
                 return if self.rng.chance(3, 4) { format!("{}if {} {{ {} }}\n", p, c, k) } else { format!("{}{}\n", p, k) };
+            }
+            if ret.is_none() && self.rng.chance(1, 2) {
+                self.st.hit("bare-return");
+                let c = self.expr(Ty::Bool, 1, sc);
+                return format!("{}if {} {{\n{}  return\n{}}}\n", p, c, p, p);
             }
             if let Some(t) = ret {
                 if self.rng.chance(1, 2) {
@@ -1203,6 +1238,13 @@ impl<'a> Gen<'a> {
             let f = self.name("nf");
             let a = self.name("a");
             let mut inner = vec![Var { name: a.clone(), ty: Ty::Int, mutable: false }];
+            if self.rng.chance(1, 2) {
+                // the nested function may use the enclosing function's ints: a named closure
+                self.st.hit("nested-fn-capturing");
+                for v in self.vars_of(sc, Ty::Int) {
+                    inner.push(Var { name: v.name.clone(), ty: Ty::Int, mutable: false });
+                }
+            }
             let body = self.block(d - 1, ind + 1, &mut inner, false, Some(Ty::Int), 3);
             let e = self.expr(Ty::Int, 1, &inner);
             let tail = if self.rng.chance(4, 5) { format!("{}return {}\n", Self::ind(ind + 1), e) } else { String::new() };
@@ -1362,8 +1404,19 @@ impl<'a> Gen<'a> {
                 None => String::new(),
             };
             s.push_str(&format!("fn {}({}){} {{\n{}{}}}\n", f, ps.join(", "), rt, body, tail));
+            self.fns.push((f.clone(), sc.iter().map(|v| v.ty).collect(), ret));
             fnames.push(f);
             self.st.hit("plain-fn");
+        }
+        if self.rng.chance(1, 3) {
+            // a function taking a function value (its type is inferred, not annotated)
+            self.st.hit("higher-order-fn");
+            let h = self.name("ap");
+            s.push_str(&format!("fn {}(f, x: int) -> int {{\n  return f(x)\n}}\nfn use{}() -> int {{\n  let k = fn(a: int) -> int {{ return a + 1 }}\n  return {}(k, 2)\n}}\n", h, h, h));
+        }
+        if self.rng.chance(1, 4) {
+            self.st.hit("explicit-null-result");
+            s.push_str(&format!("fn nothing{}(a: int) -> void {{\n  print(a)\n}}\n", self.fresh));
         }
         s.push_str("print(add2(1, 2))\n");
         s
@@ -1574,8 +1627,13 @@ fn run_case(case: &str, code: &str, modes: &[&str], st: &mut Stats) {
             typed.clone()
         } else {
             let t2 = typed.clone();
+            let level = match *mode {
+                "O1" => aelys_opt::OptimizationLevel::Basic,
+                "O3" => aelys_opt::OptimizationLevel::Aggressive,
+                _ => aelys_opt::OptimizationLevel::Standard,
+            };
             match guarded(std::panic::AssertUnwindSafe(move || {
-                let mut o = aelys_opt::Optimizer::new(aelys_opt::OptimizationLevel::Standard);
+                let mut o = aelys_opt::Optimizer::new(level);
                 o.optimize(t2)
             })) {
                 Ok(t) => t,
@@ -1666,6 +1724,125 @@ fn run_case(case: &str, code: &str, modes: &[&str], st: &mut Stats) {
     }
 }
 
+// ------------------------------------------------------------------------------------------
+// tie (f): the private helpers of mono.rs (through the verif hook) against the model's functions,
+// on random types that include the variants lower() never produces (Ptr, fixed Array)
+#[cfg(vbxq_aelys_lang_verif)]
+mod typefn {
+    use super::*;
+    use aelys_air::mono::verif;
+
+    pub fn rand_ty(rng: &mut Rng, d: u32, max_param: u32) -> AirType {
+        let leaf = d == 0 || rng.chance(2, 5);
+        if leaf {
+            return match rng.below(8) {
+                0 => AirType::I64,
+                1 => AirType::Str,
+                2 => AirType::Bool,
+                3 => AirType::F64,
+                4 => AirType::Struct(if rng.chance(1, 2) { "S".into() } else { "P".into() }),
+                5 => AirType::I32,
+                _ => AirType::Param(TypeParamId(rng.below(max_param as u64 + 1) as u32)),
+            };
+        }
+        match rng.below(4) {
+            0 => AirType::Ptr(Box::new(rand_ty(rng, d - 1, max_param))),
+            1 => AirType::Slice(Box::new(rand_ty(rng, d - 1, max_param))),
+            2 => AirType::Array(Box::new(rand_ty(rng, d - 1, max_param)), 2 + rng.below(2)),
+            _ => {
+                let n = rng.below(3);
+                AirType::FnPtr {
+                    params: (0..n).map(|_| rand_ty(rng, d - 1, max_param)).collect(),
+                    ret: Box::new(rand_ty(rng, d - 1, max_param)),
+                    conv: CallingConv::Aelys,
+                }
+            }
+        }
+    }
+    fn closed(rng: &mut Rng, d: u32) -> AirType {
+        // a type without parameters: replace them
+        let t = rand_ty(rng, d, 0);
+        verif::substitute(&t, &[TypeParamId(0)], &[AirType::U8])
+    }
+    fn mutate(rng: &mut Rng, t: &AirType) -> AirType {
+        match t {
+            AirType::Ptr(i) if rng.chance(1, 2) => AirType::Slice(i.clone()),
+            AirType::Slice(i) if rng.chance(1, 2) => AirType::Array(i.clone(), 2),
+            AirType::Array(i, n) if rng.chance(1, 2) => AirType::Array(i.clone(), n + 1),
+            AirType::Ptr(i) => AirType::Ptr(Box::new(mutate(rng, i))),
+            AirType::Slice(i) => AirType::Slice(Box::new(mutate(rng, i))),
+            AirType::Array(i, n) => AirType::Array(Box::new(mutate(rng, i)), *n),
+            AirType::FnPtr { params, ret, conv } => {
+                let mut ps = params.clone();
+                if !ps.is_empty() && rng.chance(1, 2) {
+                    let k = rng.below(ps.len() as u64) as usize;
+                    ps[k] = mutate(rng, &ps[k]);
+                    AirType::FnPtr { params: ps, ret: ret.clone(), conv: *conv }
+                } else if rng.chance(1, 3) {
+                    ps.push(AirType::Bool);
+                    AirType::FnPtr { params: ps, ret: ret.clone(), conv: *conv }
+                } else {
+                    AirType::FnPtr { params: ps, ret: Box::new(mutate(rng, ret)), conv: *conv }
+                }
+            }
+            AirType::I64 => AirType::I32,
+            AirType::Param(i) => AirType::Param(TypeParamId(i.0 + 1)),
+            _ => AirType::I64,
+        }
+    }
+    fn blank_fn(params: Vec<AirParam>, type_params: Vec<TypeParamId>) -> AirFunction {
+        AirFunction {
+            id: FunctionId(0),
+            name: "g".into(),
+            gc_mode: GcMode::Managed,
+            type_params,
+            params,
+            ret_ty: AirType::I64,
+            locals: Vec::new(),
+            blocks: Vec::new(),
+            is_extern: false,
+            calling_conv: CallingConv::Aelys,
+            attributes: FunctionAttribs { inline: InlineHint::Default, no_gc: false, no_unwind: false, cold: false },
+            span: None,
+        }
+    }
+
+    pub fn run(rng: &mut Rng, n: u64) {
+        let mut enc = MonoEnc { names: HashMap::new() };
+        for _ in 0..n {
+            // keys: equal strings <-> equal normal forms
+            let a = rand_ty(rng, 3, 2);
+            let b = if rng.chance(1, 3) { a.clone() } else if rng.chance(1, 2) { mutate(rng, &a) } else { rand_ty(rng, 3, 2) };
+            println!("FK\t({}, {})\t{}", enc.ty(&a), enc.ty(&b), verif::type_key(&a) == verif::type_key(&b));
+            // substitution
+            let np = 1 + rng.below(3) as u32;
+            let tps: Vec<TypeParamId> = (0..np).map(TypeParamId).collect();
+            let nargs = if rng.chance(1, 6) { np.saturating_sub(1) } else { np };
+            let tas: Vec<AirType> = (0..nargs).map(|_| closed(rng, 2)).collect();
+            let t = rand_ty(rng, 3, np); // may mention a parameter that is not in scope
+            let r = verif::substitute(&t, &tps, &tas);
+            let tpl: Vec<u32> = tps.iter().map(|x| x.0).collect();
+            println!("FS\t({}, {}, {})\t{}", nlist(&tpl), enc.tys(&tas), enc.ty(&t), enc.ty(&r));
+            // inference of type arguments
+            let nparams = 1 + rng.below(3);
+            let ptys: Vec<AirType> = (0..nparams).map(|_| rand_ty(rng, 2, np - 1)).collect();
+            let params: Vec<AirParam> = ptys.iter().enumerate().map(|(i, t)| AirParam { id: LocalId(i as u32), ty: t.clone(), name: format!("p{}", i), span: None }).collect();
+            let g = blank_fn(params, tps.clone());
+            // arguments: the parameter types with closed types plugged in (so that inference can succeed), sometimes unrelated
+            let plug: Vec<AirType> = (0..np).map(|_| closed(rng, 1)).collect();
+            let atys: Vec<AirType> = ptys.iter().map(|t| if rng.chance(1, 5) { closed(rng, 2) } else { verif::substitute(t, &tps, &plug) }).collect();
+            let args: Vec<Operand> = atys.iter().map(|t| Operand::Const(AirConst::ZeroInit(t.clone()))).collect();
+            let caller = blank_fn(Vec::new(), Vec::new());
+            let got = verif::infer(&g, &args, &caller);
+            let obs = match got {
+                Some(v) => format!("Some {}", enc.tys(&v)),
+                None => "None".to_string(),
+            };
+            println!("FI\t({}, {}, {})\t{}", nlist(&tpl), enc.tys(&ptys), enc.tys(&atys), obs);
+        }
+    }
+}
+
 fn main() {
     quiet_panics();
     let seed = arg_u64("--seed", 0);
@@ -1690,10 +1867,18 @@ fn main() {
     let mut rng = Rng::new(seed.wrapping_mul(0x1000_0001).wrapping_add(17));
     for i in 0..count {
         let code = {
-            let mut g = Gen { rng: &mut rng, fresh: 0, st: &mut st, generics: Vec::new(), budget: 100 };
+            let mut g = Gen { rng: &mut rng, fresh: 0, st: &mut st, generics: Vec::new(), budget: 100, fns: Vec::new() };
             g.program()
         };
         run_case(&format!("g{}", i), &code, &modes, &mut st);
+    }
+    #[cfg(vbxq_aelys_lang_verif)]
+    {
+        let n = arg_u64("--typefn", 0);
+        if n > 0 {
+            let mut r2 = Rng::new(seed ^ 0x7f4a_7c15);
+            typefn::run(&mut r2, n);
+        }
     }
     for (k, v) in &st.c {
         println!("STAT\t{}\t{}", k, v);
